@@ -263,12 +263,17 @@ def deduplicate (o : VOps V) : List (Con V) → List (Con V) → List (Con V)
       if seen.any (fun s => conEq o s c) then deduplicate o seen rest
       else c :: deduplicate o (c :: seen) rest
 
+/-- `retained and retained[-1].comparator in (">", ">=")` (the stack is kept top first) -/
+def topIsLower : List (Con V) → Bool
+  | p :: _ => p.isLower
+  | [] => false
+
 /-- One step of the stack walk of `simplify_constraints` (FIXED CODE, fix: single-pass
 stack walk): `retained` is kept reversed (top first). -/
 def simpStep (st : List (Con V)) (c : Con V) : List (Con V) :=
   if c.isUpper then
     c :: st.dropWhile (fun p => p.isEq || p.isUpper)
-  else if (c.isEq || c.isLower) && (match st with | p :: _ => p.isLower | [] => false) then
+  else if (c.isEq || c.isLower) && topIsLower st then
     st
   else c :: st
 
